@@ -74,6 +74,21 @@ def run(ctx):
     e.count("max_len", L)
     streams.append(e)
 
+    # ... nor on how much has been received already: transfers of more than a thousand frames
+    lt = Stream("long-transfers")
+    hs = []
+    for i in range(6 if ctx.thorough else 2):
+        n = r.choice([1100, 1500]) if i % 2 == 0 else r.choice([300, 1200])
+        evs = [("d", gens.ENQ)]
+        for k in range(n):
+            if i % 2 == 1 and k % 50 == 7:
+                evs.append(("d", gens.frame(k % 8, gens.text_bytes(r, 5), final=False)))      # an intermediate frame now and then
+            evs.append(("d", gens.frame(k % 8, b"R|%d|x" % k, True)))
+        evs.append(("d", gens.EOT))
+        hs.append(("astm", evs + gens.PROBE, {"kinds": ["long:%d" % n], "nontrivial": True}))
+    run_histories_fmt(lt, hs, ctx)
+    streams.append(lt)
+
     # the reply depends only on the unit and on whether a transfer is open - not on how much time has passed: the same
     # kind of sequences with pauses anywhere below the inactivity timeout between the units (virtual clock)
     from harness.props import C05
